@@ -363,6 +363,32 @@ def constructor_closure(prog):
     return cc
 
 
+def registry_fields(prog):
+    """the two parent registries of a node: the fields the node constructor
+    adds the new node to (`low.<A>.add(node)`, `high.<B>.add(node)`), read
+    from the registration statements"""
+    base, nt, tt = _classes(prog)
+    names = []
+    for ci in (nt, base):
+        for mn, node in ci.attrs.items():
+            if not isinstance(node, ast.FunctionDef):
+                continue
+            for n in ast.walk(node):
+                if isinstance(n, ast.Call) and \
+                        isinstance(n.func, ast.Attribute) and \
+                        n.func.attr == 'add' and \
+                        isinstance(n.func.value, ast.Attribute) and \
+                        len(n.args) == 1 and \
+                        isinstance(n.args[0], ast.Name) and \
+                        n.args[0].id in ('self', 'node'):
+                    if n.func.value.attr not in names:
+                        names.append(n.func.value.attr)
+    if len(names) != 2:
+        raise Inconclusive('R-HC-4', 'parent registries not identified: %r'
+                           % (names,), '')
+    return tuple(names)
+
+
 def rule_hc45(prog):
     r4 = RuleResult('R-HC-4', 'node fields are written only by the reset '
                     'routine (called on a fresh node)')
@@ -372,7 +398,8 @@ def rule_hc45(prog):
     base, nt, tt = _classes(prog)
     E = Effects(prog, ['BDD'])
     CC = constructor_closure(prog)
-    fields = ('var', 'low', 'high', 'value', 'f_low', 'f_high')
+    regs_named = registry_fields(prog)
+    fields = ('var', 'low', 'high', 'value') + tuple(regs_named)
     for s in E.summ.values():
         for (kind, name, tgt, where, rts) in s.raw_writes:
             if kind == 'setattr' and name in fields:
@@ -396,7 +423,7 @@ def rule_hc45(prog):
                 continue
             regs = [x for x in walk(tgt) if isinstance(x, App) and
                     x.op == 'attr' and isinstance(x.args[1], Const) and
-                    x.args[1].v in ('f_low', 'f_high')]
+                    x.args[1].v in regs_named]
             if not regs or tgt is not regs[0] and tgt != regs[0]:
                 continue
             ok = s.fi.qn in CC and s.fi.name != '__new__' and name == 'add'
@@ -440,7 +467,7 @@ def rule_hc45(prog):
     o = path.alloc('inst')
     path.heap[o.oid].ci = base
     I.call_function(FRef(breset), [o], [], path, breset.node)
-    for fld in ('f_low', 'f_high'):
+    for fld in regs_named:
         v = path.heap[o.oid].fields.get(fld)
         weak = isinstance(v, App) and v.op == 'call' and \
             isinstance(v.args[0], ERef) and v.args[0].name.endswith('WeakSet')
@@ -526,7 +553,19 @@ def rule_hc45(prog):
     return r4, r5
 
 
+
+def _documented_node_fields(prog, rule):
+    """the rules below address the fields of a node by the names the
+    library gives them today; with other names nothing can be said"""
+    from ..fields import bdd_node_fields
+    got = bdd_node_fields(prog)
+    if tuple(got) != ('var', 'low', 'high', 'value'):
+        raise Inconclusive(rule, 'the fields of a BDD node are called %r' % (
+            got,), 'pyModelChecking/BDD/BDD.py')
+
+
 def run(prog, tier, seed):
+    _documented_node_fields(prog, 'R-HC-1')
     T = Attempts()
     r1, r2, lookup, reg_fields = T(rule_hc12, prog, _n=4)
     if lookup is not None:
